@@ -589,7 +589,7 @@ class C17(World):
 
     def swarm(self, rng):
         kind = rng.choice(KINDS)
-        return {"kind": kind, "route": rng.choice(ROUTES[kind]), "weights": swarm_weights(rng, EDITS[kind], keep_p=0.7), "n_edits": rng.choice([1, 2, 3, 5]),
+        return {"kind": kind, "route": rng.choice(ROUTES[kind]), "weights": swarm_weights(rng, EDITS[kind], keep_p=0.7), "n_edits": rng.choice([1, 2, 3, 5] if self.TIER != "thorough" else [2, 3, 5, 8, 12]),
                 "prereads": sorted(rng.sample(PREREADS[kind], rng.randint(0, len(PREREADS[kind]))))}
 
     def _recipe(self, rng, kind):
